@@ -50,17 +50,21 @@ def main():
     args = sys.argv[1:]
     allc = False
     scratch = False
+    src = '/tmp/seed'
+    tag = ''
     while args and args[0].startswith('--'):
         a = args.pop(0)
         if a == '--all-checks': allc = True
         elif a == '--scratch': scratch = True
+        elif a == '--src': src = args.pop(0)
+        elif a == '--tag': tag = args.pop(0) + '-'
     if scratch:
         scratch_setup()
     elif sh('git -C /repo status --porcelain').stdout.strip():
         print('refusing: /repo not clean'); sys.exit(2)
     os.makedirs(OUT, exist_ok=True)
     for pid in args:
-        wt = f'/tmp/seed/{pid}'; od = f'/tmp/seed_out/{pid}'
+        wt = f'{src}/{pid}'; od = f'{src}_out/{pid}'
         env = {'CARGO_TARGET_DIR': f'{wt}_target', 'CARGO_NET_OFFLINE': 'true'}
         for n in (1, 2):
             patch = f'{od}/patch{n}.diff'; demo = f'{od}/seed_demo_{n}.rs'
@@ -68,7 +72,7 @@ def main():
                 print(f'{pid}-{n}: missing patch or demo'); continue
             meta = {'property': pid, 'n': n, 'ran': []}
             needs = json.load(open(f'{VERIF}/seeded/needs.json')) if os.path.exists(f'{VERIF}/seeded/needs.json') else {}
-            meta['needs'] = needs.get(f'{pid}-{n}', '')
+            meta['needs'] = needs.get(f'{pid}-{tag}{n}', '')
             meta['breaks_property'] = pid
             sh('git checkout -- . ', cwd=wt)
             sh('git checkout -q --detach $(git -C /repo rev-parse HEAD)', cwd=wt)
@@ -115,20 +119,20 @@ def main():
                     if cid == pid and c.returncode == 1:
                         for l in c.stdout.splitlines():
                             if l.startswith('VIOLATION') and 'replay=' in l:
-                                src = l.split('replay=')[1].strip()
-                                if os.path.exists(src):
+                                rp = l.split('replay=')[1].strip()
+                                if os.path.exists(rp):
                                     os.makedirs(f'{VERIF}/regressions/{cid}', exist_ok=True)
-                                    shutil.copy(src, f'{VERIF}/regressions/{cid}/seeded_{pid}-{n}.json')
+                                    shutil.copy(rp, f'{VERIF}/regressions/{cid}/seeded_{pid}-{tag}{n}.json')
             finally:
                 sh(f'git -C {target_repo} checkout -- . ')
             meta['ran'].append('git -C /repo apply patch.diff; ./check <ID> quick (VERIF_OUT redirected); git -C /repo checkout -- .')
-            dst = f'{VERIF}/seeded/{pid}-{n}'
+            dst = f'{VERIF}/seeded/{pid}-{tag}{n}'
             os.makedirs(dst, exist_ok=True)
             shutil.copy(patch, f'{dst}/patch.diff'); shutil.copy(demo, f'{dst}/seed_demo.rs')
             if os.path.exists(f'{od}/notes.md'): shutil.copy(f'{od}/notes.md', f'{dst}/agent_notes.md')
             json.dump(meta, open(f'{dst}/meta.json', 'w'), indent=1)
             caught = [k for k, v in meta['checks'].items() if v['exit'] == 1]
-            print(f'{pid}-{n}: confirmed={confirmed} tests={p}/{f} demo_with={dp}/{df} demo_without={dp2}/{df2} caught_by={caught} target={meta["checks"].get(pid)}', flush=True)
+            print(f'{pid}-{tag}{n}: confirmed={confirmed} tests={p}/{f} demo_with={dp}/{df} demo_without={dp2}/{df2} caught_by={caught} target={meta["checks"].get(pid)}', flush=True)
     shutil.rmtree(OUT, ignore_errors=True)
 
 if __name__ == '__main__':
